@@ -85,7 +85,8 @@ func normEdge(s string) string {
 			sb.WriteString(normEdgePiece(s))
 			break
 		}
-		sb.WriteString(normEdgePiece(s[:i]))
+		// white space in front of <pre is white space before a block-level tag (the piece ends there, so reBlockEnd does not see it)
+		sb.WriteString(strings.TrimRight(normEdgePiece(s[:i]), " \t\r\n"))
 		j := strings.Index(s[i:], "</pre>")
 		if j < 0 {
 			sb.WriteString(s[i:])
@@ -428,7 +429,7 @@ func cmdFullSpec(args []string) *Result {
 
 // ---- directed documents for FullDirected.tla ----
 //
-//   full dirgen <out.ndjson>     one record {id, src} per document; the TLC output of FullDirected.tla is then checked by `full <out>`
+//	full dirgen <out.ndjson>     one record {id, src} per document; the TLC output of FullDirected.tla is then checked by `full <out>`
 //
 // What matters in these documents is a count, so no line-shape set can hold them: runs of 255 / 256 / 257 characters (where a length
 // kept in eight bits wraps), closing fences shorter / equal / longer than a long opening fence, code spans delimited by long backtick
